@@ -1,30 +1,38 @@
-import PysnarkModel.Lemmas.BranchLive
+import PysnarkModel.Lemmas.BranchTree
 /-!
 # Block branching: the traced program computes what the native program computes (values)
 
-Simulation of `Spec/Native.lean` by `Model/Branching.lean`.  `RefV vals E`: the tracked variables
-are exactly the native variables and hold their values.
+Simulation of `Spec/Native.lean` by `Model/Branching.lean`.  `RefV r vals E` (`Spec/Native.lean`):
+the tracked variables are exactly the native variables and stand for the same numbers (in units of
+`2^-r`; lists element-wise), and every tracked boolean holds 0 or 1.
 -/
 namespace Pysnark
 
-/-- the tracked variables are the native variables, with the same integer values -/
-def RefV (vals : Vals) (E : NEnv) : Prop := ∀ x, vals.valOf x = E.get? x
-
-structure RefI (env : BEnv) (nc : NCtx) : Prop where
+structure RefI (r : Nat) (env : BEnv) (nc : NCtx) : Prop where
+  res : nc.res = r
   lvs : env.lvs = nc.lvs
-  inputs : ∀ i : Nat, Option.map (fun (o : Obj) => o.v.value) env.inputs[i]? = nc.inputs[i]?
+  inputs : ∀ i : Nat, Option.map (SVal.den r) env.inputs[i]? = Option.map (NLeaf.norm r) nc.inputs[i]?
+  finputs : ∀ i : Nat, Option.map (SVal.den r) env.finputs[i]? = Option.map (NLeaf.norm r) nc.finputs[i]?
+  ibok : ∀ o ∈ env.inputs, o.bok = true
+  fbok : ∀ o ∈ env.finputs, o.bok = true
+
+/-- a native run that failed: only "outside the cap" is compatible with a completed traced run -/
+def ErrOk (x : NErr) : Prop :=
+  match x with
+  | .uncapped => True
+  | _ => False
 
 /-- what a completed traced run says about the native run -/
-def Post (r : NM NEnv) (vals : Vals) (s : St) : Prop :=
-  match r with
-  | .ok E => Live s ∧ RefV vals E
-  | .error .uncapped => True
-  | .error .name => False
+def Post (r : Nat) (res : NM NEnv) (vals : Vals) (s : St) : Prop :=
+  match res with
+  | .ok E => Live r s ∧ RefV r vals E
+  | .error x => ErrOk x
 
-theorem Post.ok {E : NEnv} {vals : Vals} {s : St} (hl : Live s) (hr : RefV vals E) : Post (.ok E) vals s := ⟨hl, hr⟩
+theorem Post.ok {r : Nat} {E : NEnv} {vals : Vals} {s : St} (hl : Live r s) (hr : RefV r vals E) :
+    Post r (.ok E) vals s := ⟨hl, hr⟩
 
 /-! ## the native dictionary -/
-theorem NEnv.get?_set (E : NEnv) (x y : Nat) (v : Int) :
+theorem NEnv.get?_set (E : NEnv) (x y : Nat) (v : NVal) :
     (E.set x v).get? y = if x = y then some v else E.get? y := by
   induction E with
   | nil => simp [NEnv.set, NEnv.get?]
@@ -42,159 +50,538 @@ theorem NEnv.get?_set (E : NEnv) (x y : Nat) (v : Int) :
         simp [this]
       · simp [hy]
 
-theorem RefV.set {vals : Vals} {E : NEnv} (h : RefV vals E) (x : Nat) (o : Obj) :
-    RefV (vals.set x o) (E.set x o.v.value) := by
-  intro y
-  unfold Vals.valOf
-  rw [Vals.get?_set, NEnv.get?_set]
-  by_cases hy : x = y
-  · simp [hy]
-  · simp only [hy, if_false]; exact h y
-
-/-- the tracked variables seen as a native dictionary -/
-def Vals.toNEnv (vs : Vals) : NEnv := vs.map (fun kv => (kv.1, kv.2.v.value))
-
-theorem Vals.refV_toNEnv : ∀ (vs : Vals), RefV vs vs.toNEnv
-  | [], x => rfl
-  | (k, o) :: t, x => by
-    have ih := Vals.refV_toNEnv t x
-    unfold Vals.valOf at ih ⊢
-    simp only [Vals.toNEnv, List.map_cons, Vals.get?, NEnv.get?]
+/-! ## booleans hold 0 or 1 -/
+theorem Vals.bok.get? : ∀ {vs : Vals}, vs.bok → ∀ {x : Nat} {t : TVal}, vs.get? x = some t → t.bok = true
+  | [], _, x, t, h => by simp [Vals.get?] at h
+  | (k, p) :: rest, hb, x, t, h => by
+    simp only [Vals.get?] at h
     by_cases hk : k = x
-    · simp [hk]
-    · simp only [hk, if_false]; exact ih
+    · simp only [hk, if_true, Option.some.injEq] at h
+      subst h
+      exact hb (k, p) (by simp)
+    · simp only [hk, if_false] at h
+      exact Vals.bok.get? (fun kv hkv => hb kv (List.mem_cons_of_mem _ hkv)) h
+
+theorem Vals.bok.set : ∀ {vs : Vals}, vs.bok → ∀ (x : Nat) {t : TVal}, t.bok = true → Vals.bok (vs.set x t)
+  | [], _, x, t, ht => by
+    intro kv hkv
+    simp only [Vals.set, List.mem_singleton] at hkv
+    subst hkv; exact ht
+  | (k, p) :: rest, hb, x, t, ht => by
+    simp only [Vals.set]
+    by_cases hk : k = x
+    · simp only [hk, if_true]
+      intro kv hkv
+      rcases List.mem_cons.mp hkv with rfl | hkv
+      · exact ht
+      · exact hb kv (List.mem_cons_of_mem _ hkv)
+    · simp only [hk, if_false]
+      intro kv hkv
+      rcases List.mem_cons.mp hkv with rfl | hkv
+      · exact hb (k, p) (by simp)
+      · exact Vals.bok.set (fun kv' hkv' => hb kv' (List.mem_cons_of_mem _ hkv')) x ht kv hkv
+
+theorem Vals.bok.filter {vs : Vals} (h : vs.bok) (p : Nat × TVal → Bool) : Vals.bok (vs.filter p) :=
+  fun kv hkv => h kv (List.mem_filter.mp hkv).1
+
+theorem Vals.bok.removeAll {vs : Vals} (h : vs.bok) (other : Vals) : Vals.bok (vs.removeAll other) := h.filter _
+
+theorem Vals.bok.setAll_aux {other : Vals} (ho : other.bok) : ∀ (l : Vals) {acc : Vals},
+    acc.bok → Vals.bok (l.foldl (Vals.setFrom other) acc)
+  | [], acc, ha => ha
+  | kv :: l, acc, ha => by
+    simp only [List.foldl_cons]
+    refine Vals.bok.setAll_aux ho l ?_
+    unfold Vals.setFrom
+    cases hg : other.get? kv.1 with
+    | none => exact ha
+    | some o => exact ha.set _ (ho.get? hg)
+
+theorem Vals.bok.setAll {vs other : Vals} (hv : vs.bok) (ho : other.bok) : Vals.bok (vs.setAll other) :=
+  Vals.bok.setAll_aux ho other hv
+
+theorem Vals.bok_nil : Vals.bok [] := fun kv h => by cases h
+
+theorem valOf_set (r : Nat) (vs : Vals) (x y : Nat) (t : TVal) :
+    (vs.set x t).valOf r y = if x = y then some (denT r t) else vs.valOf r y := by
+  unfold Vals.valOf
+  rw [Vals.get?_set]
+  by_cases hy : x = y <;> simp [hy]
+
+theorem nvalOf_set (r : Nat) (E : NEnv) (x y : Nat) (v : NVal) :
+    (E.set x v).valOf r y = if x = y then some (denN r v) else E.valOf r y := by
+  unfold NEnv.valOf
+  rw [NEnv.get?_set]
+  by_cases hy : x = y <;> simp [hy]
+
+theorem RefV.set {r : Nat} {vals : Vals} {E : NEnv} (h : RefV r vals E) (x : Nat) {t : TVal} {v : NVal}
+    (hd : denN r v = denT r t) (hb : t.bok = true) : RefV r (vals.set x t) (E.set x v) := by
+  refine ⟨fun y => ?_, h.bok.set x hb⟩
+  rw [valOf_set, nvalOf_set, hd, h.eq y]
+
+/-! ## native arithmetic on the numbers -/
+theorem norm_nAdd (r : Nat) (p q : NLeaf) : (nAdd r p q).norm r = p.norm r + q.norm r := by
+  cases p <;> cases q <;> simp only [nAdd, NLeaf.norm] <;> ring
+
+theorem norm_nSub (r : Nat) (p q : NLeaf) : (nSub r p q).norm r = p.norm r - q.norm r := by
+  cases p <;> cases q <;> simp only [nSub, NLeaf.norm] <;> ring
+
+theorem nMul_ok {r : Nat} {p q : NLeaf} {m : Int} (h : m * 2 ^ r = p.norm r * q.norm r) :
+    ∃ w, nMul r p q = .ok w ∧ w.norm r = m := by
+  have h2 := pow2_ne_zero r
+  have hgen : (p.norm r * q.norm r) % 2 ^ r = 0 ∧ (p.norm r * q.norm r) / 2 ^ r = m := by
+    rw [← h]
+    exact ⟨Int.mul_emod_left _ _, Int.mul_ediv_cancel _ h2⟩
+  cases p with
+  | int x =>
+    cases q with
+    | int y =>
+      refine ⟨.int (x * y), rfl, ?_⟩
+      simp only [NLeaf.norm] at h ⊢
+      have : m * 2 ^ r = (x * y * 2 ^ r) * 2 ^ r := by rw [h]; ring
+      exact (Int.eq_of_mul_eq_mul_right h2 this).symm
+    | fx y =>
+      refine ⟨.fx (((NLeaf.int x).norm r * (NLeaf.fx y).norm r) / 2 ^ r), ?_, hgen.2⟩
+      simp only [nMul, hgen.1, if_true]
+  | fx x =>
+    refine ⟨.fx (((NLeaf.fx x).norm r * q.norm r) / 2 ^ r), ?_, hgen.2⟩
+    cases q <;> simp only [nMul, hgen.1, if_true]
+
+theorem truthy_iff (r : Nat) (p : NLeaf) (l : Int) (h : p.norm r = l * 2 ^ r) : p.truthy r = decide (l ≠ 0) := by
+  unfold NLeaf.truthy
+  rw [h]
+  have h2 := pow2_ne_zero r
+  by_cases hl : l = 0
+  · simp [hl]
+  · have : l * 2 ^ r ≠ 0 := mul_ne_zero hl h2
+    simp [hl, this]
+
+theorem norm_nBool (r : Nat) (b : Bool) : (nBool b).norm r = (if b then 1 else 0) * 2 ^ r := rfl
+
+theorem ok_bind {ε α β : Type} (a : α) (f : α → Except ε β) : (Except.ok a >>= f) = f a := rfl
+
+theorem nBin_leaf {f : NLeaf → NLeaf → NM NLeaf} {p q w : NLeaf} (h : f p q = .ok w) :
+    nBin f (.leaf p) (.leaf q) = .ok (.leaf w) := by
+  simp only [nBin, nScalar, ok_bind, h]; rfl
+
+theorem den_bool (r : Nat) (l : LinComb) (id : Option Nat) : (SVal.sc .bool l id).den r = l.value * 2 ^ r := rfl
+theorem den_int (r : Nat) (l : LinComb) (id : Option Nat) : (SVal.sc .int l id).den r = l.value * 2 ^ r := rfl
 
 /-! ## expressions and conditions -/
-theorem evalE_val {env : BEnv} {nc : NCtx} {bv : BV} {E : NEnv} (hi : RefI env nc) (hv : RefV bv.vals E) :
-    ∀ (e : BExpr) {s s' : St} {v : Val}, evalE env bv e s = .ok (v, s') →
-      Same s s' ∧ IsIntV v ∧ nEvalE nc E e = .ok (ival v)
-  | .var x, s, s', v, h => by
+
+/-- operands of a binary operator: two scalars on both sides -/
+theorem binS_leaves {r : Nat} {op : Val → Val → M Val} {ok : Val → Val → Bool} {x y t : TVal} {n n' : Nat}
+    {s s' : St} {vx vy : NVal} (h : binS op ok x y n s = .ok ((t, n'), s'))
+    (hx : denN r vx = denT r x) (hy : denN r vy = denT r y) :
+    ∃ a b v o p q, x = .leaf a ∧ y = .leaf b ∧ vx = .leaf p ∧ vy = .leaf q ∧ p.norm r = a.den r ∧
+      q.norm r = b.den r ∧ ok a.toVal b.toVal = true ∧ op a.toVal b.toVal s = .ok (v, s') ∧
+      SVal.ofVal v n = some o ∧ t = .leaf o := by
+  obtain ⟨a, b, v, o, rfl, rfl, hok, hop, ho, rfl, _⟩ := binS_ok h
+  rw [denT_leaf] at hx hy
+  obtain ⟨p, rfl, hp⟩ := denN_eq_leaf hx
+  obtain ⟨q, rfl, hq⟩ := denN_eq_leaf hy
+  exact ⟨a, b, v, o, p, q, rfl, rfl, rfl, rfl, hp, hq, hok, hop, ho, rfl⟩
+
+theorem mem_of_get? {α : Type} {l : List α} {i : Nat} {a : α} (h : l[i]? = some a) : a ∈ l :=
+  List.mem_of_getElem? h
+
+mutual
+theorem evalE_val {r : Nat} {env : BEnv} {nc : NCtx} {vals : Vals} {E : NEnv} (hi : RefI r env nc)
+    (hv : RefV r vals E) : ∀ (e : BExpr) {n n' : Nat} {t : TVal} {s s' : St}, Live r s →
+      evalE env vals e n s = .ok ((t, n'), s') →
+      Same s s' ∧ t.bok = true ∧ ∃ v, nEvalE nc E e = .ok v ∧ denN r v = denT r t
+  | .var x, n, n', t, s, s', _, h => by
     unfold evalE at h
-    have hx := hv x
-    unfold Vals.valOf at hx
-    cases hg : bv.vals.get? x with
+    have hx := hv.eq x
+    unfold Vals.valOf NEnv.valOf at hx
+    cases hg : vals.get? x with
     | none => simp only [hg] at h; exact (raise_ok.mp h).elim
     | some o =>
       simp only [hg] at h
-      obtain ⟨rfl, rfl⟩ := pure_ok' h
+      obtain ⟨h1, rfl⟩ := pure_ok' h
+      simp only [Prod.mk.injEq] at h1
+      obtain ⟨rfl, _⟩ := h1
       rw [hg] at hx
-      refine ⟨Same.refl _, trivial, ?_⟩
-      simp only [nEvalE, ← hx, Option.map_some, nGet, ival]
-  | .inp i, s, s', v, h => by
+      cases hE : E.get? x with
+      | none => rw [hE] at hx; cases hx
+      | some v =>
+        rw [hE] at hx
+        simp only [Option.map_some, Option.some.injEq] at hx
+        exact ⟨Same.refl _, hv.bok.get? hg, v, by simp only [nEvalE, hE, nGet], hx.symm⟩
+  | .inp i, n, n', t, s, s', _, h => by
     unfold evalE at h
     have hx := hi.inputs i
     cases hg : env.inputs[i]? with
     | none => simp only [hg] at h; exact (raise_ok.mp h).elim
     | some o =>
       simp only [hg] at h
-      obtain ⟨rfl, rfl⟩ := pure_ok' h
+      obtain ⟨h1, rfl⟩ := pure_ok' h
+      simp only [Prod.mk.injEq] at h1
+      obtain ⟨rfl, _⟩ := h1
       rw [hg] at hx
-      refine ⟨Same.refl _, trivial, ?_⟩
-      simp only [nEvalE, ← hx, Option.map_some, nGet, ival]
-  | .const c, s, s', v, h => by
+      cases hE : nc.inputs[i]? with
+      | none => rw [hE] at hx; cases hx
+      | some p =>
+        rw [hE] at hx
+        simp only [Option.map_some, Option.some.injEq] at hx
+        refine ⟨Same.refl _, ?_, .leaf p, by simp only [nEvalE, hE, nGet]; rfl, ?_⟩
+        · rw [TVal.bok_leaf]; exact hi.ibok o (mem_of_get? hg)
+        · rw [denN_leaf, denT_leaf, hx]
+  | .finp i, n, n', t, s, s', _, h => by
     unfold evalE at h
-    obtain ⟨rfl, rfl⟩ := pure_ok' h
-    exact ⟨Same.refl _, trivial, rfl⟩
-  | .loopvar w, s, s', v, h => by
+    have hx := hi.finputs i
+    cases hg : env.finputs[i]? with
+    | none => simp only [hg] at h; exact (raise_ok.mp h).elim
+    | some o =>
+      simp only [hg] at h
+      obtain ⟨h1, rfl⟩ := pure_ok' h
+      simp only [Prod.mk.injEq] at h1
+      obtain ⟨rfl, _⟩ := h1
+      rw [hg] at hx
+      cases hE : nc.finputs[i]? with
+      | none => rw [hE] at hx; cases hx
+      | some p =>
+        rw [hE] at hx
+        simp only [Option.map_some, Option.some.injEq] at hx
+        refine ⟨Same.refl _, ?_, .leaf p, by simp only [nEvalE, hE, nGet]; rfl, ?_⟩
+        · rw [TVal.bok_leaf]; exact hi.fbok o (mem_of_get? hg)
+        · rw [denN_leaf, denT_leaf, hx]
+  | .const c, n, n', t, s, s', _, h => by
+    unfold evalE at h
+    obtain ⟨h1, rfl⟩ := pure_ok' h
+    simp only [Prod.mk.injEq] at h1
+    obtain ⟨rfl, _⟩ := h1
+    exact ⟨Same.refl _, rfl, .leaf (.int c), by simp only [nEvalE], by rw [denN_leaf, denT_leaf]; rfl⟩
+  | .loopvar w, n, n', t, s, s', _, h => by
     unfold evalE at h
     cases hg : lookupLv env.lvs w with
     | none => simp only [hg] at h; exact (raise_ok.mp h).elim
     | some k =>
       simp only [hg] at h
-      obtain ⟨rfl, rfl⟩ := pure_ok' h
-      refine ⟨Same.refl _, trivial, ?_⟩
-      simp only [nEvalE, ← hi.lvs, hg, nGet, ival]
-  | .add a b, s, s', v, h => by
+      obtain ⟨h1, rfl⟩ := pure_ok' h
+      simp only [Prod.mk.injEq] at h1
+      obtain ⟨rfl, _⟩ := h1
+      refine ⟨Same.refl _, rfl, .leaf (.int k), ?_, by rw [denN_leaf, denT_leaf]; rfl⟩
+      simp only [nEvalE, ← hi.lvs, hg, nGet]; rfl
+  | .add a b, n, n', t, s, s', hl, h => by
     unfold evalE at h
-    obtain ⟨x, s1, h1, h⟩ := bind_ok.mp h
-    obtain ⟨y, s2, h2, h⟩ := bind_ok.mp h
-    obtain ⟨sm1, kx, nx⟩ := evalE_val hi hv a h1
-    obtain ⟨sm2, ky, ny⟩ := evalE_val hi hv b h2
-    obtain ⟨rfl, kr, vr⟩ := addV_int_val kx ky h
-    refine ⟨sm1.trans sm2, kr, ?_⟩
-    rw [nEvalE, nx, ny, vr]; rfl
-  | .sub a b, s, s', v, h => by
+    obind h with ⟨x, n1⟩, s1, h1
+    obind h with ⟨y, n2⟩, s2, h2
+    obtain ⟨sm1, _, vx, nx, dx⟩ := evalE_val hi hv a hl h1
+    obtain ⟨sm2, _, vy, ny, dy⟩ := evalE_val hi hv b (hl.same sm1) h2
+    have hl2 := (hl.same sm1).same sm2
+    obtain ⟨p, q, v, o, pn, qn, rfl, rfl, rfl, rfl, hp, hq, _, hop, ho, rfl⟩ := binS_leaves h dx dy
+    obtain ⟨rfl, _, hk, vr⟩ := addV_rep p.toVal_isS q.toVal_isS hop
+    refine ⟨sm1.trans sm2, ?_, .leaf (nAdd r pn qn), ?_, ?_⟩
+    · rw [TVal.bok_leaf]; exact SVal.bok_of_not_lcb (fun l hl' => hk l (by rw [← SVal.ofVal_toVal ho]; exact hl'))
+    · simp only [nEvalE, nx, ny, hi.res, ok_bind]; exact nBin_leaf rfl
+    · rw [denN_leaf, denT_leaf, norm_nAdd, hp, hq, SVal.ofVal_den ho, ← hl2.res, vr, SVal.den_eq_rep, SVal.den_eq_rep]
+  | .sub a b, n, n', t, s, s', hl, h => by
     unfold evalE at h
-    obtain ⟨x, s1, h1, h⟩ := bind_ok.mp h
-    obtain ⟨y, s2, h2, h⟩ := bind_ok.mp h
-    obtain ⟨sm1, kx, nx⟩ := evalE_val hi hv a h1
-    obtain ⟨sm2, ky, ny⟩ := evalE_val hi hv b h2
-    obtain ⟨rfl, kr, vr⟩ := subV_int_val kx ky h
-    refine ⟨sm1.trans sm2, kr, ?_⟩
-    rw [nEvalE, nx, ny, vr]; rfl
-  | .mul a b, s, s', v, h => by
+    obind h with ⟨x, n1⟩, s1, h1
+    obind h with ⟨y, n2⟩, s2, h2
+    obtain ⟨sm1, _, vx, nx, dx⟩ := evalE_val hi hv a hl h1
+    obtain ⟨sm2, _, vy, ny, dy⟩ := evalE_val hi hv b (hl.same sm1) h2
+    have hl2 := (hl.same sm1).same sm2
+    obtain ⟨p, q, v, o, pn, qn, rfl, rfl, rfl, rfl, hp, hq, _, hop, ho, rfl⟩ := binS_leaves h dx dy
+    obtain ⟨rfl, _, hk, vr⟩ := subV_rep p.toVal_isS q.toVal_isS hop
+    refine ⟨sm1.trans sm2, ?_, .leaf (nSub r pn qn), ?_, ?_⟩
+    · rw [TVal.bok_leaf]; exact SVal.bok_of_not_lcb (fun l hl' => hk l (by rw [← SVal.ofVal_toVal ho]; exact hl'))
+    · simp only [nEvalE, nx, ny, hi.res, ok_bind]; exact nBin_leaf rfl
+    · rw [denN_leaf, denT_leaf, norm_nSub, hp, hq, SVal.ofVal_den ho, ← hl2.res, vr, SVal.den_eq_rep, SVal.den_eq_rep]
+  | .mul a b, n, n', t, s, s', hl, h => by
     unfold evalE at h
-    obtain ⟨x, s1, h1, h⟩ := bind_ok.mp h
-    obtain ⟨y, s2, h2, h⟩ := bind_ok.mp h
-    obtain ⟨sm1, kx, nx⟩ := evalE_val hi hv a h1
-    obtain ⟨sm2, ky, ny⟩ := evalE_val hi hv b h2
-    obtain ⟨sm3, kr, vr⟩ := mulV_int_val kx ky h
-    refine ⟨(sm1.trans sm2).trans sm3, kr, ?_⟩
-    rw [nEvalE, nx, ny, vr]; rfl
+    obind h with ⟨x, n1⟩, s1, h1
+    obind h with ⟨y, n2⟩, s2, h2
+    obtain ⟨sm1, _, vx, nx, dx⟩ := evalE_val hi hv a hl h1
+    obtain ⟨sm2, _, vy, ny, dy⟩ := evalE_val hi hv b (hl.same sm1) h2
+    obtain ⟨p, q, v, o, pn, qn, rfl, rfl, rfl, rfl, hp, hq, hok, hop, ho, rfl⟩ := binS_leaves h dx dy
+    obtain ⟨sm3, _, hk, vr⟩ := mulV_rep p.toVal_isS q.toVal_isS hok hop
+    have hm : o.den r * 2 ^ r = pn.norm r * qn.norm r := by
+      rw [hp, hq, SVal.ofVal_den ho, vr r, SVal.den_eq_rep, SVal.den_eq_rep]
+    obtain ⟨w, hw, vw⟩ := nMul_ok hm
+    refine ⟨(sm1.trans sm2).trans sm3, ?_, .leaf w, ?_, ?_⟩
+    · rw [TVal.bok_leaf]; exact SVal.bok_of_not_lcb (fun l hl' => hk l (by rw [← SVal.ofVal_toVal ho]; exact hl'))
+    · simp only [nEvalE, nx, ny, hi.res, ok_bind]; exact nBin_leaf hw
+    · rw [denN_leaf, denT_leaf, vw]
+  | .cmp op a b, n, n', t, s, s', hl, h => by
+    unfold evalE at h
+    obind h with ⟨x, n1⟩, s1, h1
+    obind h with ⟨y, n2⟩, s2, h2
+    obtain ⟨sm1, _, vx, nx, dx⟩ := evalE_val hi hv a hl h1
+    obtain ⟨sm2, _, vy, ny, dy⟩ := evalE_val hi hv b (hl.same sm1) h2
+    have hl2 := (hl.same sm1).same sm2
+    obtain ⟨p, q, v, o, pn, qn, rfl, rfl, rfl, rfl, hp, hq, hok, hop, ho, rfl⟩ := binS_leaves h dx dy
+    obtain ⟨sm3, l, rfl, hb, vl⟩ := cmpV_rep hok hop
+    simp only [SVal.ofVal, Option.some.injEq] at ho
+    subst ho
+    refine ⟨(sm1.trans sm2).trans sm3, ?_, .leaf (nBool (cmpB op (pn.norm r) (qn.norm r))), ?_, ?_⟩
+    · rw [TVal.bok_leaf]; exact SVal.bok_bool hb
+    · simp only [nEvalE, nx, ny, hi.res, ok_bind]; exact nBin_leaf rfl
+    · rw [denN_leaf, denT_leaf, norm_nBool, hp, hq, den_bool, vl hl2, cmpSem_cmpB, SVal.den_eq_rep, SVal.den_eq_rep]
+  | .not a, n, n', t, s, s', hl, h => by
+    unfold evalE at h
+    obind h with ⟨x, n1⟩, s1, h1
+    obtain ⟨sm1, _, vx, nx, dx⟩ := evalE_val hi hv a hl h1
+    obtain ⟨l, id, rr, rfl, hn, rfl, _⟩ := notS_ok h
+    obtain ⟨sm2, vr, hb⟩ := boolNot_val hn
+    rw [denT_leaf] at dx
+    obtain ⟨p, rfl, hp⟩ := denN_eq_leaf dx
+    rw [den_bool] at hp
+    have hbr : BoolLC rr := by unfold BoolLC; rw [vr]; rcases hb with h0 | h1 <;> simp [*]
+    refine ⟨sm1.trans sm2, ?_, .leaf (nBool (!p.truthy r)), ?_, ?_⟩
+    · rw [TVal.bok_leaf]; exact SVal.bok_bool hbr
+    · simp only [nEvalE, nx, hi.res, ok_bind, nScalar]; rfl
+    · rw [denN_leaf, denT_leaf, norm_nBool, truthy_iff r p _ hp, den_bool, vr]
+      rcases hb with h0 | h1 <;> simp [*]
+  | .and a b, n, n', t, s, s', hl, h => by
+    unfold evalE at h
+    obind h with ⟨x, n1⟩, s1, h1
+    obind h with ⟨y, n2⟩, s2, h2
+    obtain ⟨sm1, bx, vx, nx, dx⟩ := evalE_val hi hv a hl h1
+    obtain ⟨sm2, by', vy, ny, dy⟩ := evalE_val hi hv b (hl.same sm1) h2
+    obtain ⟨p, q, v, o, pn, qn, rfl, rfl, rfl, rfl, hp, hq, hok, hop, ho, rfl⟩ := binS_leaves h dx dy
+    obtain ⟨lx, ly, hx', hy'⟩ := bothBool_ok hok
+    obtain ⟨idx, rfl⟩ := SVal.toVal_lcb hx'
+    obtain ⟨idy, rfl⟩ := SVal.toVal_lcb hy'
+    obtain ⟨sm3, l, rfl, hb, vl⟩ := bwV_bool (Or.inl rfl) hop
+    simp only [SVal.ofVal, Option.some.injEq] at ho
+    subst ho
+    rw [TVal.bok_leaf] at bx by'
+    have hbx := SVal.boolLC_of_bok bx
+    rw [den_bool] at hp hq
+    refine ⟨(sm1.trans sm2).trans sm3, ?_, .leaf (if pn.truthy r then qn else pn), ?_, ?_⟩
+    · rw [TVal.bok_leaf]; exact SVal.bok_bool hb
+    · simp only [nEvalE, nx, ny, hi.res, ok_bind]; exact nBin_leaf rfl
+    · rw [denN_leaf, denT_leaf, truthy_iff r pn _ hp, den_bool, vl]
+      rcases hbx with h0 | h1
+      · simp [h0, hp]
+      · simp [h1, hq]
+  | .or a b, n, n', t, s, s', hl, h => by
+    unfold evalE at h
+    obind h with ⟨x, n1⟩, s1, h1
+    obind h with ⟨y, n2⟩, s2, h2
+    obtain ⟨sm1, bx, vx, nx, dx⟩ := evalE_val hi hv a hl h1
+    obtain ⟨sm2, by', vy, ny, dy⟩ := evalE_val hi hv b (hl.same sm1) h2
+    obtain ⟨p, q, v, o, pn, qn, rfl, rfl, rfl, rfl, hp, hq, hok, hop, ho, rfl⟩ := binS_leaves h dx dy
+    obtain ⟨lx, ly, hx', hy'⟩ := bothBool_ok hok
+    obtain ⟨idx, rfl⟩ := SVal.toVal_lcb hx'
+    obtain ⟨idy, rfl⟩ := SVal.toVal_lcb hy'
+    obtain ⟨sm3, l, rfl, hb, vl⟩ := bwV_bool (Or.inr rfl) hop
+    simp only [SVal.ofVal, Option.some.injEq] at ho
+    subst ho
+    rw [TVal.bok_leaf] at bx by'
+    have hbx := SVal.boolLC_of_bok bx
+    rw [den_bool] at hp hq
+    refine ⟨(sm1.trans sm2).trans sm3, ?_, .leaf (if pn.truthy r then pn else qn), ?_, ?_⟩
+    · rw [TVal.bok_leaf]; exact SVal.bok_bool hb
+    · simp only [nEvalE, nx, ny, hi.res, ok_bind]; exact nBin_leaf rfl
+    · rw [denN_leaf, denT_leaf, truthy_iff r pn _ hp, den_bool, vl]
+      rcases hbx with h0 | h1
+      · simp [h0, hq]
+      · simp [h1, hp]
+  | .list es, n, n', t, s, s', hl, h => by
+    unfold evalE at h
+    obind h with ⟨ts, n1⟩, s1, h1
+    obtain ⟨h2, rfl⟩ := pure_ok' h
+    simp only [Prod.mk.injEq] at h2
+    obtain ⟨rfl, _⟩ := h2
+    obtain ⟨sm, hb, vs, nvs, dvs⟩ := evalEs_val hi hv es hl h1
+    refine ⟨sm, by rw [TVal.bok_node]; exact hb, .node vs, by simp only [nEvalE, nvs, ok_bind]; rfl, ?_⟩
+    rw [denN_node, denT_node, dvs]
+  | .item e i, n, n', t, s, s', hl, h => by
+    unfold evalE at h
+    obind h with ⟨u, n1⟩, s1, h1
+    obtain ⟨sm, hb, v, nv, dv⟩ := evalE_val hi hv e hl h1
+    cases u with
+    | leaf a => exact (raise_ok.mp h).elim
+    | node ts =>
+      dsimp only at h
+      cases hg : ts[i]? with
+      | none => simp only [hg] at h; exact (raise_ok.mp h).elim
+      | some w =>
+        simp only [hg] at h
+        obtain ⟨h2, rfl⟩ := pure_ok' h
+        simp only [Prod.mk.injEq] at h2
+        obtain ⟨rfl, _⟩ := h2
+        rw [denT_node] at dv
+        obtain ⟨vs, rfl, hvs⟩ := denN_eq_node dv
+        have hidx : (vs.map (denN r))[i]? = (ts.map (denT r))[i]? := by rw [hvs]
+        simp only [List.getElem?_map, hg, Option.map_some] at hidx
+        cases hw : vs[i]? with
+        | none => rw [hw] at hidx; cases hidx
+        | some w' =>
+          rw [hw] at hidx
+          simp only [Option.map_some, Option.some.injEq] at hidx
+          rw [TVal.bok_node] at hb
+          exact ⟨sm, List.all_eq_true.mp hb w (mem_of_get? hg), w', by simp only [nEvalE, nv, ok_bind, hw, nGet], hidx⟩
+theorem evalEs_val {r : Nat} {env : BEnv} {nc : NCtx} {vals : Vals} {E : NEnv} (hi : RefI r env nc)
+    (hv : RefV r vals E) : ∀ (es : BExprs) {n n' : Nat} {ts : List TVal} {s s' : St}, Live r s →
+      evalEs env vals es n s = .ok ((ts, n'), s') →
+      Same s s' ∧ ts.all TVal.bok = true ∧ ∃ vs, nEvalEs nc E es = .ok vs ∧ vs.map (denN r) = ts.map (denT r)
+  | .nil, n, n', ts, s, s', _, h => by
+    unfold evalEs at h
+    obtain ⟨h1, rfl⟩ := pure_ok' h
+    simp only [Prod.mk.injEq] at h1
+    obtain ⟨rfl, _⟩ := h1
+    exact ⟨Same.refl _, rfl, [], by simp only [nEvalEs], rfl⟩
+  | .cons e es, n, n', ts, s, s', hl, h => by
+    unfold evalEs at h
+    obind h with ⟨u, n1⟩, s1, h1
+    obind h with ⟨us, n2⟩, s2, h2
+    obtain ⟨h3, rfl⟩ := pure_ok' h
+    simp only [Prod.mk.injEq] at h3
+    obtain ⟨rfl, _⟩ := h3
+    obtain ⟨sm1, hb1, v, nv, dv⟩ := evalE_val hi hv e hl h1
+    obtain ⟨sm2, hb2, vs, nvs, dvs⟩ := evalEs_val hi hv es (hl.same sm1) h2
+    refine ⟨sm1.trans sm2, by simp only [List.all_cons, hb1, hb2, Bool.and_self], v :: vs, by simp only [nEvalEs, nv, nvs, ok_bind]; rfl, ?_⟩
+    simp only [List.map_cons, dv, dvs]
+end
 
-/-- a comparison evaluated while the guard is true is the native comparison -/
-theorem evalC_live {env : BEnv} {nc : NCtx} {bv : BV} {E : NEnv} (hi : RefI env nc) (hv : RefV bv.vals E)
-    {c : BCond} {s s' : St} {v : Val} (hl : Live s) (h : evalC env bv c s = .ok (v, s')) :
-    Same s s' ∧ ∃ (b : Bool) (r : LinComb), nEvalC nc E c = .ok b ∧ v = .lcb r ∧ r.value = if b then 1 else 0 := by
-  unfold evalC at h
-  obtain ⟨x, s1, h1, h⟩ := bind_ok.mp h
-  obtain ⟨y, s2, h2, h⟩ := bind_ok.mp h
-  obtain ⟨sm1, kx, nx⟩ := evalE_val hi hv c.lhs h1
-  obtain ⟨sm2, ky, ny⟩ := evalE_val hi hv c.rhs h2
-  obtain ⟨sm3, r, rfl, vr⟩ := cmpV_int_live ((hl.same sm1).same sm2) kx ky h
-  refine ⟨(sm1.trans sm2).trans sm3, cmpB c.op (ival x) (ival y), r, ?_, rfl, by rw [vr, cmpSem_cmpB]⟩
-  rw [nEvalC, nx, ny]; rfl
+/-- a condition evaluated while the guard is true: its truth value is the native one -/
+theorem evalC_live {r : Nat} {env : BEnv} {nc : NCtx} {bv : BV} {E : NEnv} (hi : RefI r env nc) (hv : RefV r bv.vals E)
+    {c : BCond} {s s' : St} {v : Val} (hl : Live r s) (h : evalC env bv c s = .ok (v, s')) :
+    Same s s' ∧ ∃ (b : Bool), nEvalC nc E c = .ok b ∧ ∀ l, v = .lcb l → l.value = if b then 1 else 0 := by
+  obtain ⟨o, n', he, rfl⟩ := evalC_ok h
+  obtain ⟨sm, hb, w, nw, dw⟩ := evalE_val hi hv c hl he
+  rw [denT_leaf] at dw
+  obtain ⟨p, rfl, hp⟩ := denN_eq_leaf dw
+  refine ⟨sm, p.truthy r, by simp only [nEvalC, nw, hi.res, ok_bind, nScalar]; rfl, ?_⟩
+  intro l hlv
+  obtain ⟨id, rfl⟩ := SVal.toVal_lcb hlv
+  rw [TVal.bok_leaf] at hb
+  have hbl := SVal.boolLC_of_bok hb
+  rw [den_bool] at hp
+  rw [truthy_iff r p _ hp]
+  rcases hbl with h0 | h1 <;> simp [*]
 
-/-- the same on whatever values the tracked variables hold: the result is a boolean and the guard
-state is not touched -/
-theorem evalC_live_any {env : BEnv} {nc : NCtx} {bv : BV} (hi : RefI env nc)
-    {c : BCond} {s s' : St} {v : Val} (hl : Live s) (h : evalC env bv c s = .ok (v, s')) :
-    Same s s' ∧ ∃ r, v = .lcb r ∧ (r.value = 0 ∨ r.value = 1) := by
-  obtain ⟨sm, b, r, _, rfl, vr⟩ := evalC_live hi (Vals.refV_toNEnv bv.vals) hl h
-  exact ⟨sm, r, rfl, by cases b <;> simp [vr]⟩
+/-- a loop bound evaluated while the guard is true: a secret integer, the native bound -/
+theorem evalC_bound {r : Nat} {env : BEnv} {nc : NCtx} {bv : BV} {E : NEnv} (hi : RefI r env nc) (hv : RefV r bv.vals E)
+    {c : BExpr} {s s' : St} {st : LinComb} (hl : Live r s) (h : evalC env bv c s = .ok (.lc st, s')) :
+    Same s s' ∧ ∃ w, nEvalE nc E c = .ok w ∧ nBound nc.res w = .ok st.value := by
+  obtain ⟨o, n', he, ho⟩ := evalC_ok h
+  obtain ⟨sm, hb, w, nw, dw⟩ := evalE_val hi hv c hl he
+  rw [denT_leaf] at dw
+  obtain ⟨p, rfl, hp⟩ := denN_eq_leaf dw
+  obtain ⟨id, rfl⟩ := SVal.toVal_lc ho.symm
+  rw [den_int] at hp
+  refine ⟨sm, .leaf p, nw, ?_⟩
+  have h2 := pow2_ne_zero r
+  simp only [nBound, nScalar, ok_bind, hi.res, hp, Int.mul_emod_left, if_true, Int.mul_ediv_cancel _ h2]
+  rfl
+
+/-! ## `if_then_else` on values: the number selected -/
+
+/-- what a merge selects -/
+def dsel (cv : Int) (t f : DVal) : DVal := if cv = 1 then t else f
+
+theorem mergeS_val {r : Nat} {c : LinComb} {t f o : SVal} {n n' : Nat} {s s' : St} (hr : s.resolution = r)
+    (hc : BoolLC c) (h : mergeS c t f n s = .ok ((o, n'), s')) :
+    o.den r = (if c.value = 1 then t.den r else f.den r) ∧ ((t.bok = true ∨ f.bok = true) → o.bok = true) := by
+  rcases mergeS_ok h with ⟨_, hv, rfl, _, rfl⟩ | ⟨_, v, hv, ho, _⟩
+  · refine ⟨by rw [hv]; split <;> rfl, fun hb => ?_⟩
+    rcases hb with hb | hb
+    · exact hb
+    · rw [hv]; exact hb
+  · obtain ⟨_, _, hk, vr⟩ := iteScalar_rep t.toVal_isS f.toVal_isS hv
+    refine ⟨?_, fun _ => SVal.bok_of_not_lcb (fun l hl' => hk l (by rw [← SVal.ofVal_toVal ho]; exact hl'))⟩
+    rw [SVal.ofVal_den ho, ← hr, vr, SVal.den_eq_rep, SVal.den_eq_rep]
+    rcases hc with h0 | h1
+    · simp [h0]
+    · simp [h1]
+
+mutual
+theorem mergeT_val {r : Nat} {c : LinComb} (hc : BoolLC c) : ∀ {t f o : TVal} {n n' : Nat} {s s' : St},
+    s.resolution = r → mergeT c t f n s = .ok ((o, n'), s') →
+    denT r o = dsel c.value (denT r t) (denT r f) ∧ ((t.bok = true ∨ f.bok = true) → o.bok = true)
+  | .leaf a, .leaf b, o, n, n', s, s', hr, h => by
+    obtain ⟨w, hw, rfl⟩ := mergeT_leaf_ok h
+    obtain ⟨hd, hb⟩ := mergeS_val hr hc hw
+    refine ⟨?_, fun hbb => ?_⟩
+    · simp only [denT_leaf, dsel, hd]
+      split <;> rfl
+    · simp only [TVal.bok_leaf] at hbb ⊢
+      exact hb hbb
+  | .node ts, .node fs, o, n, n', s, s', hr, h => by
+    obtain ⟨rs, hrs, rfl⟩ := mergeT_node_ok h
+    obtain ⟨hd, hb⟩ := mergeTL_val hc hr hrs
+    refine ⟨?_, fun hbb => ?_⟩
+    · simp only [denT_node, dsel, hd]
+      split <;> rfl
+    · simp only [TVal.bok_node] at hbb ⊢
+      exact hb hbb
+  | .node ts, .leaf b, o, n, n', s, s', _, h => by unfold mergeT at h; exact (raise_ok.mp h).elim
+  | .leaf a, .node fs, o, n, n', s, s', _, h => by unfold mergeT at h; exact (raise_ok.mp h).elim
+theorem mergeTL_val {r : Nat} {c : LinComb} (hc : BoolLC c) : ∀ {ts fs os : List TVal} {n n' : Nat} {s s' : St},
+    s.resolution = r → mergeTL c ts fs n s = .ok ((os, n'), s') →
+    os.map (denT r) = (if c.value = 1 then ts.map (denT r) else fs.map (denT r)) ∧
+      ((ts.all TVal.bok = true ∨ fs.all TVal.bok = true) → os.all TVal.bok = true)
+  | [], [], os, n, n', s, s', _, h => by
+    obtain ⟨rfl, _, _⟩ := mergeTL_nil_ok h
+    exact ⟨by split <;> rfl, fun _ => rfl⟩
+  | t :: ts, f :: fs, os, n, n', s, s', hr, h => by
+    obtain ⟨o, n1, s1, os', h1, h2, rfl⟩ := mergeTL_cons_ok h
+    obtain ⟨hd1, hb1⟩ := mergeT_val hc hr h1
+    obtain ⟨hd2, hb2⟩ := mergeTL_val hc ((mergeT_same h1).res.trans hr) h2
+    refine ⟨?_, fun hbb => ?_⟩
+    · simp only [List.map_cons, hd1, hd2, dsel]
+      split <;> rfl
+    · simp only [List.all_cons, Bool.and_eq_true] at hbb ⊢
+      rcases hbb with ⟨ha, hb⟩ | ⟨ha, hb⟩
+      · exact ⟨hb1 (Or.inl ha), hb2 (Or.inl hb)⟩
+      · exact ⟨hb1 (Or.inr ha), hb2 (Or.inr hb)⟩
+  | [], _ :: _, os, n, n', s, s', _, h => by unfold mergeTL at h; exact (raise_ok.mp h).elim
+  | _ :: _, [], os, n, n', s, s', _, h => by unfold mergeTL at h; exact (raise_ok.mp h).elim
+end
 
 /-! ## the merges of `BranchContext.exit` on values -/
-theorem valOf_cons (k : Nat) (o : Obj) (t : Vals) (x : Nat) :
-    Vals.valOf ((k, o) :: t) x = if k = x then some o.v.value else Vals.valOf t x := by
+theorem valOf_cons (r : Nat) (k : Nat) (o : TVal) (t : Vals) (x : Nat) :
+    Vals.valOf r ((k, o) :: t) x = if k = x then some (denT r o) else Vals.valOf r t x := by
   unfold Vals.valOf
   simp only [Vals.get?]
   by_cases hk : k = x <;> simp [hk]
 
-theorem has_cons (k : Nat) (o : Obj) (t : Vals) (x : Nat) :
+theorem has_cons (k : Nat) (o : TVal) (t : Vals) (x : Nat) :
     Vals.has ((k, o) :: t) x = (decide (k = x) || Vals.has t x) := by
   unfold Vals.has
   simp only [Vals.get?]
   by_cases hk : k = x <;> simp [hk]
 
-theorem valOf_eq_none {vs : Vals} {x : Nat} : vs.valOf x = none ↔ vs.has x = false := by
+theorem valOf_eq_none {r : Nat} {vs : Vals} {x : Nat} : vs.valOf r x = none ↔ vs.has x = false := by
   unfold Vals.valOf Vals.has
   cases vs.get? x <;> simp
 
-theorem valOf_some_has {vs : Vals} {x : Nat} {v : Int} (h : vs.valOf x = some v) : vs.has x = true := by
+theorem valOf_some_has {r : Nat} {vs : Vals} {x : Nat} {v : DVal} (h : vs.valOf r x = some v) : vs.has x = true := by
   unfold Vals.valOf at h; unfold Vals.has
   cases hg : vs.get? x <;> simp [hg] at h ⊢
 
-theorem has_valOf {vs : Vals} {x : Nat} (h : vs.has x = true) : ∃ v, vs.valOf x = some v := by
+theorem has_valOf (r : Nat) {vs : Vals} {x : Nat} (h : vs.has x = true) : ∃ v, vs.valOf r x = some v := by
   unfold Vals.valOf; unfold Vals.has at h
   cases hg : vs.get? x with
   | none => simp [hg] at h
   | some o => exact ⟨_, rfl⟩
 
-theorem mergeBak_val {c : LinComb} {bak : Vals} : ∀ {vals rs : Vals} {n n' : Nat} {s s' : St},
-    mergeBak c bak vals n s = .ok ((rs, n'), s') →
+theorem bok_cons {k : Nat} {o : TVal} {t : Vals} : Vals.bok ((k, o) :: t) ↔ o.bok = true ∧ Vals.bok t := by
+  unfold Vals.bok
+  simp only [List.mem_cons, forall_eq_or_imp]
+
+theorem mergeBak_val {r : Nat} {c : LinComb} (hc : BoolLC c) {bak : Vals} : ∀ {vals rs : Vals} {n n' : Nat} {s s' : St},
+    s.resolution = r → mergeBak c bak vals n s = .ok ((rs, n'), s') →
     Same s s' ∧ (∀ x, vals.has x = true → bak.has x = true) ∧
-    ∀ x, rs.valOf x = (vals.valOf x).bind (fun t => (bak.valOf x).map (fun f => f + c.value * (t - f)))
-  | [], rs, n, n', s, s', h => by
+    (∀ x, rs.valOf r x = (vals.valOf r x).bind (fun t => (bak.valOf r x).map (fun f => dsel c.value t f))) ∧
+    ((vals.bok ∨ bak.bok) → rs.bok)
+  | [], rs, n, n', s, s', _, h => by
     unfold mergeBak at h
     obtain ⟨h1, rfl⟩ := pure_ok' h
     simp only [Prod.mk.injEq] at h1
     rw [← h1.1]
-    exact ⟨Same.refl _, fun x hx => by simp [Vals.has, Vals.get?] at hx, fun x => rfl⟩
-  | (y, t) :: rest, rs, n, n', s, s', h => by
-    obtain ⟨f, r, n1, s1, rs', hf, hm, h3, rfl⟩ := mergeBak_cons_ok h
-    obtain ⟨sm1, vr⟩ := mergeObj_val hm
-    obtain ⟨sm2, hd, ih⟩ := mergeBak_val h3
-    refine ⟨sm1.trans sm2, ?_, ?_⟩
+    exact ⟨Same.refl _, fun x hx => by simp [Vals.has, Vals.get?] at hx, fun x => rfl, fun _ => Vals.bok_nil⟩
+  | (y, t) :: rest, rs, n, n', s, s', hr, h => by
+    obtain ⟨f, o, n1, s1, rs', hf, hm, h3, rfl⟩ := mergeBak_cons_ok h
+    have sm1 := mergeT_same hm
+    obtain ⟨vr, hbo⟩ := mergeT_val hc hr hm
+    obtain ⟨sm2, hd, ih, hbr⟩ := mergeBak_val hc (sm1.res.trans hr) h3
+    refine ⟨sm1.trans sm2, ?_, ?_, ?_⟩
     · intro x hx
       rw [has_cons] at hx
       by_cases hy : y = x
@@ -204,25 +591,33 @@ theorem mergeBak_val {c : LinComb} {bak : Vals} : ∀ {vals rs : Vals} {n n' : N
       rw [valOf_cons, valOf_cons]
       by_cases hy : y = x
       · subst hy
-        have : bak.valOf y = some f.v.value := by unfold Vals.valOf; rw [hf]; rfl
+        have : bak.valOf r y = some (denT r f) := by unfold Vals.valOf; rw [hf]; rfl
         simp [this, vr]
       · simp only [hy, if_false]; exact ih x
+    · intro hb
+      rw [bok_cons]
+      rcases hb with hb | hb
+      · rw [bok_cons] at hb
+        exact ⟨hbo (Or.inl hb.1), hbr (Or.inl hb.2)⟩
+      · exact ⟨hbo (Or.inr (hb.get? hf)), hbr (Or.inr hb)⟩
 
-theorem mergeNodef_val {c : LinComb} {vals : Vals} : ∀ {nd rs : Vals} {n n' : Nat} {s s' : St},
-    mergeNodef c vals nd n s = .ok ((rs, n'), s') →
+theorem mergeNodef_val {r : Nat} {c : LinComb} (hc : BoolLC c) {vals : Vals} : ∀ {nd rs : Vals} {n n' : Nat} {s s' : St},
+    s.resolution = r → mergeNodef c vals nd n s = .ok ((rs, n'), s') →
     Same s s' ∧ (∀ x, nd.has x = true → vals.has x = true) ∧
-    ∀ x, rs.valOf x = (nd.valOf x).bind (fun f => (vals.valOf x).map (fun t => f + c.value * (t - f)))
-  | [], rs, n, n', s, s', h => by
+    (∀ x, rs.valOf r x = (nd.valOf r x).bind (fun f => (vals.valOf r x).map (fun t => dsel c.value t f))) ∧
+    ((vals.bok ∨ nd.bok) → rs.bok)
+  | [], rs, n, n', s, s', _, h => by
     unfold mergeNodef at h
     obtain ⟨h1, rfl⟩ := pure_ok' h
     simp only [Prod.mk.injEq] at h1
     rw [← h1.1]
-    exact ⟨Same.refl _, fun x hx => by simp [Vals.has, Vals.get?] at hx, fun x => rfl⟩
-  | (y, o) :: rest, rs, n, n', s, s', h => by
-    obtain ⟨t, r, n1, s1, rs', ht, hm, h3, rfl⟩ := mergeNodef_cons_ok h
-    obtain ⟨sm1, vr⟩ := mergeObj_val hm
-    obtain ⟨sm2, hd, ih⟩ := mergeNodef_val h3
-    refine ⟨sm1.trans sm2, ?_, ?_⟩
+    exact ⟨Same.refl _, fun x hx => by simp [Vals.has, Vals.get?] at hx, fun x => rfl, fun _ => Vals.bok_nil⟩
+  | (y, o) :: rest, rs, n, n', s, s', hr, h => by
+    obtain ⟨t, w, n1, s1, rs', ht, hm, h3, rfl⟩ := mergeNodef_cons_ok h
+    have sm1 := mergeT_same hm
+    obtain ⟨vr, hbo⟩ := mergeT_val hc hr hm
+    obtain ⟨sm2, hd, ih, hbr⟩ := mergeNodef_val hc (sm1.res.trans hr) h3
+    refine ⟨sm1.trans sm2, ?_, ?_, ?_⟩
     · intro x hx
       rw [has_cons] at hx
       by_cases hy : y = x
@@ -232,133 +627,190 @@ theorem mergeNodef_val {c : LinComb} {vals : Vals} : ∀ {nd rs : Vals} {n n' : 
       rw [valOf_cons, valOf_cons]
       by_cases hy : y = x
       · subst hy
-        have : vals.valOf y = some t.v.value := by unfold Vals.valOf; rw [ht]; rfl
+        have : vals.valOf r y = some (denT r t) := by unfold Vals.valOf; rw [ht]; rfl
         simp [this, vr]
       · simp only [hy, if_false]; exact ih x
+    · intro hb
+      rw [bok_cons]
+      rcases hb with hb | hb
+      · exact ⟨hbo (Or.inl (hb.get? ht)), hbr (Or.inl hb)⟩
+      · rw [bok_cons] at hb
+        exact ⟨hbo (Or.inr hb.1), hbr (Or.inr hb.2)⟩
 
 /-- the variables of an `if` in progress: those first bound inside it shadow nothing (disjoint) -/
-def view (nd vals : Vals) (x : Nat) : Option Int :=
-  match nd.valOf x with
+def view (r : Nat) (nd vals : Vals) (x : Nat) : Option DVal :=
+  match nd.valOf r x with
   | some v => some v
-  | none => vals.valOf x
+  | none => vals.valOf r x
 
 def Disj (nd vals : Vals) : Prop := ∀ x, nd.has x = true → vals.has x = false
 
-theorem valOf_filter_bak (vals bak : Vals) (x : Nat) :
-    Vals.valOf (vals.filter (fun kv => !bak.has kv.1)) x = if bak.has x then none else vals.valOf x := by
+theorem valOf_filter_bak (r : Nat) (vals bak : Vals) (x : Nat) :
+    Vals.valOf r (vals.filter (fun kv => !bak.has kv.1)) x = if bak.has x then none else vals.valOf r x := by
   have := Vals.get?_filter (fun k => !Vals.has bak k) vals x
   unfold Vals.valOf
   rw [this]
   cases bak.has x <;> simp
 
-theorem valOf_removeAll (vals nd : Vals) (x : Nat) :
-    (vals.removeAll nd).valOf x = if nd.has x then none else vals.valOf x := by
+theorem valOf_removeAll (r : Nat) (vals nd : Vals) (x : Nat) :
+    (vals.removeAll nd).valOf r x = if nd.has x then none else vals.valOf r x := by
   unfold Vals.valOf
   rw [Vals.get?_removeAll]
   cases nd.has x <;> simp
 
-theorem valOf_setAll (vals nd : Vals) (x : Nat) : (vals.setAll nd).valOf x = view nd vals x := by
+theorem valOf_setAll (r : Nat) (vals nd : Vals) (x : Nat) : (vals.setAll nd).valOf r x = view r nd vals x := by
   unfold view Vals.valOf
   rw [Vals.get?_setAll]
   unfold Vals.has
   cases h : nd.get? x <;> simp
 
+theorem valOf_backup (r : Nat) (vs : Vals) (x : Nat) : vs.backup.valOf r x = vs.valOf r x := by
+  unfold Vals.valOf
+  rw [Vals.get?_backup]
+  cases vs.get? x with
+  | none => rfl
+  | some t =>
+    simp only [Option.map_some, Option.some.injEq]
+    have key : ∀ o : SVal, (SVal.dcopy o).den r = o.den r := by
+      intro o
+      cases o with
+      | pub c => rfl
+      | sc k l id => cases k <;> rfl
+    have : ∀ u : TVal, denT r u.dcopy = denT r u := by
+      intro u
+      -- both sides map the leaves; the copies stand for the same numbers
+      have h1 : ∀ (u : TVal), PTree.map (SVal.den r) (PTree.map SVal.dcopy u) = PTree.map (SVal.den r) u := by
+        intro u
+        induction u using PTree.rec (motive_2 := fun ts => (ts.map (fun u => PTree.map (SVal.den r) (PTree.map SVal.dcopy u))) = ts.map (PTree.map (SVal.den r))) with
+        | leaf a => simp only [PTree.map_leaf, key]
+        | node ts ih => simp only [PTree.map_node, List.map_map]; congr 1
+        | nil => rfl
+        | cons t ts iht ihts => simp only [List.map_cons, iht, ihts]
+      exact h1 u
+    exact this t
+
+theorem bok_backup {vs : Vals} (h : vs.bok) : vs.backup.bok := by
+  have key : ∀ o : SVal, (SVal.dcopy o).bok = o.bok := by
+    intro o
+    cases o with
+    | pub c => rfl
+    | sc k l id => cases k <;> rfl
+  have h1 : ∀ (u : TVal), PTree.all SVal.bok (PTree.map SVal.dcopy u) = PTree.all SVal.bok u := by
+    intro u
+    induction u using PTree.rec (motive_2 := fun ts => (ts.map (PTree.map SVal.dcopy)).all (PTree.all SVal.bok) = ts.all (PTree.all SVal.bok)) with
+    | leaf a => simp only [PTree.map_leaf, PTree.all_leaf, key]
+    | node ts ih => simp only [PTree.map_node, PTree.all_node]; exact ih
+    | nil => rfl
+    | cons t ts iht ihts => simp only [List.map_cons, List.all_cons, iht, ihts]
+  induction vs with
+  | nil => exact Vals.bok_nil
+  | cons kv rest ih =>
+    obtain ⟨k, o⟩ := kv
+    simp only [Vals.backup]
+    rw [bok_cons] at h ⊢
+    exact ⟨by unfold TVal.bok TVal.dcopy; rw [h1]; exact h.1, ih h.2⟩
+
 /-- leaving a segment whose condition is true: the variables are what the body left -/
-theorem exit_live {ctx ctx' : BCtx} {bv bv' : BV} {s s' : St} (hc : ctx.cond.value = 1)
-    (hlt : LiveT ctx.origguard) (h : ctx.exit bv s = .ok ((ctx', bv'), s')) :
-    Live s' ∧ ∃ nd, ctx'.nodefvals = some nd ∧ (∀ x, view nd bv'.vals x = bv.vals.valOf x) ∧ Disj nd bv'.vals ∧
-      (∀ nd0, ctx.nodefvals = some nd0 → ∀ x, nd.has x = nd0.has x) := by
+theorem exit_live {r : Nat} {ctx ctx' : BCtx} {bv bv' : BV} {s s' : St} (hc : ctx.cond.value = 1)
+    (hlt : LiveT ctx.origguard) (hres : s.resolution = r) (h : ctx.exit bv s = .ok ((ctx', bv'), s')) :
+    Live r s' ∧ ∃ nd, ctx'.nodefvals = some nd ∧ (∀ x, view r nd bv'.vals x = bv.vals.valOf r x) ∧ Disj nd bv'.vals ∧
+      (∀ nd0, ctx.nodefvals = some nd0 → ∀ x, nd.has x = nd0.has x) ∧
+      (bv.vals.bok → nd.bok ∧ bv'.vals.bok) := by
   obtain ⟨s1, nd, n1, s2, vals, n2, hr, hnd, hb, rfl, rfl⟩ := exit_ok h
-  have l1 := Live.of_restore hlt hr
-  obtain ⟨smb, hbd, hbv⟩ := mergeBak_val hb
+  have l1 := Live.of_restore hlt hres hr
+  have hcb : BoolLC ctx.cond := Or.inr hc
   -- the names first bound inside: same values as in the body's result
-  have hndv : Same s1 s2 ∧ (∀ x, nd.has x = true → nd.valOf x = bv.vals.valOf x) ∧
-      (∀ nd0, ctx.nodefvals = some nd0 → ∀ x, nd.has x = nd0.has x) := by
+  have hndv : Same s1 s2 ∧ (∀ x, nd.has x = true → nd.valOf r x = bv.vals.valOf r x) ∧
+      (∀ nd0, ctx.nodefvals = some nd0 → ∀ x, nd.has x = nd0.has x) ∧ (bv.vals.bok → nd.bok) := by
     rcases hnd with ⟨hn, rfl, _, rfl⟩ | ⟨nd0, hn, hm⟩
-    · refine ⟨Same.refl _, ?_, fun nd0 h0 => by rw [hn] at h0; cases h0⟩
+    · refine ⟨Same.refl _, ?_, (fun nd0 h0 => by rw [hn] at h0; cases h0), fun hb' => hb'.filter _⟩
       intro x hx
       rw [valOf_filter_bak]
       rw [has_filter_bak] at hx
       cases hb' : ctx.bak.has x <;> simp [hb'] at hx ⊢
-    · obtain ⟨smn, hnd', hnv⟩ := mergeNodef_val hm
-      refine ⟨smn, ?_, fun nd1 h1 x => by rw [hn] at h1; cases h1; exact mergeNodef_has hm x⟩
+    · obtain ⟨smn, hnd', hnv, hnb⟩ := mergeNodef_val hcb l1.res hm
+      refine ⟨smn, ?_, (fun nd1 h1 x => by rw [hn] at h1; cases h1; exact mergeNodef_has hm x), fun hb' => hnb (Or.inl hb')⟩
       intro x hx
       rw [mergeNodef_has hm x] at hx
-      obtain ⟨t, ht⟩ := has_valOf (hnd' x hx)
-      obtain ⟨f, hf⟩ := has_valOf hx
+      obtain ⟨t, ht⟩ := has_valOf r (hnd' x hx)
+      obtain ⟨f, hf⟩ := has_valOf r hx
       rw [hnv x, hf, ht]
-      simp [hc]
-  obtain ⟨smn, hndv, hkeys⟩ := hndv
-  refine ⟨(l1.same smn).same smb, nd, rfl, ?_, ?_, hkeys⟩
+      simp [hc, dsel]
+  obtain ⟨smn, hndv, hkeys, hndb⟩ := hndv
+  obtain ⟨smb, hbd, hbv, hbb⟩ := mergeBak_val hcb ((l1.same smn).res) hb
+  refine ⟨(l1.same smn).same smb, nd, rfl, ?_, ?_, hkeys, fun hb' => ⟨hndb hb', hbb (Or.inl (hb'.removeAll nd))⟩⟩
   · intro x
     unfold view
     cases hx : nd.has x with
     | true =>
-      obtain ⟨v, hv⟩ := has_valOf hx
+      obtain ⟨v, hv⟩ := has_valOf r hx
       rw [hv, ← hndv x hx, hv]
     | false =>
       rw [valOf_eq_none.mpr hx]
       simp only
       rw [hbv x, valOf_removeAll, hx]
       simp only [Bool.false_eq_true, if_false]
-      cases ht : bv.vals.valOf x with
+      cases ht : bv.vals.valOf r x with
       | none => rfl
       | some t =>
         have : (bv.vals.removeAll nd).has x = true := by rw [has_removeAll, valOf_some_has ht, hx]; rfl
-        obtain ⟨f, hf⟩ := has_valOf (hbd x this)
-        simp [hf, hc]
+        obtain ⟨f, hf⟩ := has_valOf r (hbd x this)
+        simp [hf, hc, dsel]
   · intro x hx
     rw [mergeBak_has hb x, has_removeAll, hx]; simp
 
 /-- leaving a segment whose condition is false: the variables are what they were when it was entered -/
-theorem exit_dead {ctx ctx' : BCtx} {bv bv' : BV} {s s' : St} (hc : ctx.cond.value = 0)
-    (hlt : LiveT ctx.origguard) (hmono : ∀ x, ctx.bak.has x = true → bv.vals.has x = true)
+theorem exit_dead {r : Nat} {ctx ctx' : BCtx} {bv bv' : BV} {s s' : St} (hc : ctx.cond.value = 0)
+    (hlt : LiveT ctx.origguard) (hres : s.resolution = r) (hmono : ∀ x, ctx.bak.has x = true → bv.vals.has x = true)
     (hdisj : ∀ nd0, ctx.nodefvals = some nd0 → Disj nd0 ctx.bak)
     (h : ctx.exit bv s = .ok ((ctx', bv'), s')) :
-    Live s' ∧ ∃ nd, ctx'.nodefvals = some nd ∧ (∀ x, bv'.vals.valOf x = ctx.bak.valOf x) ∧ Disj nd bv'.vals ∧
-      (∀ nd0, ctx.nodefvals = some nd0 → ∀ x, nd.valOf x = nd0.valOf x) := by
+    Live r s' ∧ ∃ nd, ctx'.nodefvals = some nd ∧ (∀ x, bv'.vals.valOf r x = ctx.bak.valOf r x) ∧ Disj nd bv'.vals ∧
+      (∀ nd0, ctx.nodefvals = some nd0 → (∀ x, nd.valOf r x = nd0.valOf r x) ∧ (nd0.bok → nd.bok)) ∧
+      (ctx.bak.bok → bv'.vals.bok) := by
   obtain ⟨s1, nd, n1, s2, vals, n2, hr, hnd, hb, rfl, rfl⟩ := exit_ok h
-  have l1 := Live.of_restore hlt hr
-  obtain ⟨smb, hbd, hbv⟩ := mergeBak_val hb
+  have l1 := Live.of_restore hlt hres hr
+  have hcb : BoolLC ctx.cond := Or.inl hc
   have hndv : Same s1 s2 ∧ (∀ x, ctx.bak.has x = true → nd.has x = false) ∧
-      (∀ nd0, ctx.nodefvals = some nd0 → ∀ x, nd.valOf x = nd0.valOf x) := by
+      (∀ nd0, ctx.nodefvals = some nd0 → (∀ x, nd.valOf r x = nd0.valOf r x) ∧ (nd0.bok → nd.bok)) := by
     rcases hnd with ⟨hn, rfl, _, rfl⟩ | ⟨nd0, hn, hm⟩
     · refine ⟨Same.refl _, ?_, fun nd0 h0 => by rw [hn] at h0; cases h0⟩
       intro x hx
       rw [has_filter_bak, hx]; simp
-    · obtain ⟨smn, hnd', hnv⟩ := mergeNodef_val hm
+    · obtain ⟨smn, hnd', hnv, hnb⟩ := mergeNodef_val hcb l1.res hm
       refine ⟨smn, ?_, ?_⟩
       · intro x hx
         rw [mergeNodef_has hm x]
         cases hh : nd0.has x with
         | false => rfl
         | true => have := hdisj nd0 hn x hh; rw [hx] at this; cases this
-      · intro nd1 h1 x
+      · intro nd1 h1
         rw [hn] at h1; cases h1
+        refine ⟨fun x => ?_, fun hb' => hnb (Or.inr hb')⟩
         rw [hnv x]
-        cases hf : nd0.valOf x with
+        cases hf : nd0.valOf r x with
         | none => rfl
         | some f =>
-          obtain ⟨t, ht⟩ := has_valOf (hnd' x (valOf_some_has hf))
-          simp [ht, hc]
+          obtain ⟨t, ht⟩ := has_valOf r (hnd' x (valOf_some_has hf))
+          simp [ht, hc, dsel]
   obtain ⟨smn, hbn, hnv⟩ := hndv
-  refine ⟨(l1.same smn).same smb, nd, rfl, ?_, ?_, hnv⟩
+  obtain ⟨smb, hbd, hbv, hbb⟩ := mergeBak_val hcb ((l1.same smn).res) hb
+  refine ⟨(l1.same smn).same smb, nd, rfl, ?_, ?_, hnv, fun hb' => hbb (Or.inr hb')⟩
   · intro x
     rw [hbv x, valOf_removeAll]
     cases hbx : ctx.bak.has x with
     | true =>
       rw [hbn x hbx]
       simp only [Bool.false_eq_true, if_false]
-      obtain ⟨t, ht⟩ := has_valOf (hmono x hbx)
-      obtain ⟨f, hf⟩ := has_valOf hbx
-      simp [ht, hf, hc]
+      obtain ⟨t, ht⟩ := has_valOf r (hmono x hbx)
+      obtain ⟨f, hf⟩ := has_valOf r hbx
+      simp [ht, hf, hc, dsel]
     | false =>
       rw [valOf_eq_none.mpr hbx]
       cases hnx : nd.has x with
       | true => simp
       | false =>
         simp only [Bool.false_eq_true, if_false]
-        cases ht : bv.vals.valOf x with
+        cases ht : bv.vals.valOf r x with
         | none => rfl
         | some t =>
           have : (bv.vals.removeAll nd).has x = true := by rw [has_removeAll, valOf_some_has ht, hnx]; rfl
